@@ -8,7 +8,7 @@ import glob, json, os, subprocess, sys, tempfile, shutil, time
 V = os.path.dirname(os.path.abspath(__file__))
 REPO = os.environ.get("VERIF_REPO", "/repo")
 BOUNDS = {  # property -> (quick bound, thorough bound)
-    "C01": (5, 7), "C02": (2, 3), "C15": (3, 4), "C20": (6, 8),
+    "C01": (5, 6), "C02": (2, 3), "C15": (3, 4), "C20": (6, 8),
 }
 
 def main():
